@@ -4,6 +4,7 @@ import (
 	"go/ast"
 	"go/parser"
 	"go/types"
+	"strings"
 
 	"golang.org/x/tools/go/ssa"
 
@@ -32,22 +33,22 @@ func ValueOf(i any) Value { return Value{} }
 
 // c08Flows are the ways a value of type Target reaches reflection. Each is a
 // complete package; Target and its field Val must end up in the name table.
-var c08Flows = []struct{ name, src string }{
+var c08Flows = []struct{ name, src, lib string }{
 	{"direct", `
 func Use() { _ = reflect.TypeOf(Target{}) }
-`},
+`, ""},
 	{"one helper", `
 func h1(x any) reflect.Type { return reflect.TypeOf(x) }
 
 func Use() { h1(Target{}) }
-`},
+`, ""},
 	{"two helpers", `
 func h1(x any) reflect.Type { return reflect.TypeOf(x) }
 
 func h2(x any) reflect.Type { return h1(x) }
 
 func Use() { h2(Target{}) }
-`},
+`, ""},
 	{"three helpers", `
 func h1(x any) reflect.Type { return reflect.TypeOf(x) }
 
@@ -56,17 +57,17 @@ func h2(x any) reflect.Type { return h1(x) }
 func h3(x any) reflect.Type { return h2(x) }
 
 func Use() { h3(Target{}) }
-`},
+`, ""},
 	{"pointer", `
 func h1(x any) reflect.Value { return reflect.ValueOf(x) }
 
 func Use() { h1(&Target{Val: 1}) }
-`},
+`, ""},
 	{"slice", `
 func h1(x any) reflect.Type { return reflect.TypeOf(x) }
 
 func Use() { h1([]Target{{Val: 1}}) }
-`},
+`, ""},
 	{"variadic", `
 func hv(xs ...any) {
 	for _, x := range xs {
@@ -75,7 +76,7 @@ func hv(xs ...any) {
 }
 
 func Use() { hv(1, Target{}) }
-`},
+`, ""},
 	{"interface variable", `
 func h1(x any) reflect.Type { return reflect.TypeOf(x) }
 
@@ -86,21 +87,21 @@ func Use(n int) {
 	}
 	h1(i)
 }
-`},
+`, ""},
 	{"method helper", `
 type pr struct{}
 
 func (pr) show(x any) { _ = reflect.TypeOf(x) }
 
 func Use() { pr{}.show(Target{}) }
-`},
+`, ""},
 	{"nested in a reflected struct", `
 type Wrap struct{ In *Target }
 
 func h1(x any) reflect.Type { return reflect.TypeOf(x) }
 
 func Use() { h1(Wrap{}) }
-`},
+`, ""},
 	{"after a store to a reflected global", `
 type First struct{ N int }
 
@@ -116,7 +117,7 @@ func Use() {
 	current = First{N: 1}
 	h2(Target{})
 }
-`},
+`, ""},
 	{"stored into an interface field of a reflected struct", `
 type Backend interface{ Name() string }
 
@@ -129,7 +130,7 @@ func Use() {
 	cfg.Primary = Target{Val: 1}
 	_ = reflect.TypeOf(cfg)
 }
-`},
+`, ""},
 	{"stored into a reflected struct by another function", `
 type Backend interface{ Name() string }
 
@@ -146,7 +147,7 @@ func Use() {
 	setup(c)
 	_ = configType
 }
-`},
+`, ""},
 	{"converted from a reflected type", `
 type wire struct{ Val int }
 
@@ -157,6 +158,30 @@ func Use() {
 	_ = convert(m)
 	_ = reflect.TypeOf(m)
 }
+`, ""},
+	{"helper declared in a dependency", `
+func Use() { lib.Show(Target{Val: 1}) }
+`, `
+func Show(x any) reflect.Type { return reflect.TypeOf(x) }
+`},
+	{"two-level helper declared in a dependency", `
+func local(x any) { lib.Show2(x) }
+
+func Use() { local(Target{Val: 1}) }
+`, `
+func show(x any) reflect.Type { return reflect.TypeOf(x) }
+
+func Show2(x any) reflect.Type { return show(x) }
+`},
+	{"method helper declared in a dependency", `
+func Use() {
+	var p lib.Printer
+	p.Print(0, Target{Val: 1})
+}
+`, `
+type Printer struct{}
+
+func (Printer) Print(n int, x any) { _ = reflect.ValueOf(x) }
 `},
 	{"helper with two reflected parameters", `
 func h1(x any) reflect.Type { return reflect.TypeOf(x) }
@@ -167,18 +192,51 @@ func both(a, b any) {
 }
 
 func Use() { both(1, Target{}) }
-`},
+`, ""},
 }
 
 const c08DataflowPath = "example.com/cur"
 
-func c08Importer(reflectPkg *types.Package) importerWithMap {
+func c08Importer(pkgs ...*types.Package) importerWithMap {
 	return importerWithMap{importFrom: func(path, dir string, mode types.ImportMode) (*types.Package, error) {
-		if path == "reflect" {
-			return reflectPkg, nil
+		for _, p := range pkgs {
+			if p != nil && p.Path() == path {
+				return p, nil
+			}
 		}
 		return nil, errNoSuchPackage
 	}}
+}
+
+const c08LibPath = "example.com/lib"
+
+// c08Analyse is computePkgCache's analysis step: SSA of the package, then the
+// real recordReflection on top of what the dependencies' cache entries hold.
+func c08Analyse(lpkg *listedPackage, pkg *types.Package, file *ast.File, info *types.Info, inherited *pkgCache) pkgCache {
+	ssaPkg := ssaBuildPkg(pkg, []*ast.File{file}, info)
+	computed := pkgCache{
+		ReflectAPIs: map[string]map[int]bool{
+			"reflect.TypeOf":  {0: true},
+			"reflect.ValueOf": {0: true},
+		},
+		ReflectObjectNames: map[string]string{},
+	}
+	if inherited != nil {
+		computed.CopyFrom(*inherited)
+	}
+	inspector := reflectInspector{
+		lpkg:            lpkg,
+		pkg:             pkg,
+		checkedAPIs:     make(map[string]bool),
+		propagatedInstr: map[ssa.Instruction]bool{},
+		result:          computed,
+	}
+	symx.MapOrder(true)
+	// the package's members (a handful) in every explored order; the small API tables in insertion order
+	symx.MapOrderOpts(5, tier(0, 6), true)
+	inspector.recordReflection(ssaPkg)
+	symx.MapOrder(false)
+	return inspector.result
 }
 
 var errNoSuchPackage = errString("no such package")
@@ -216,44 +274,50 @@ func c08Flow(idx int) {
 		symx.Fail(err.Error())
 		return
 	}
-	src := "package cur\n\nimport \"reflect\"\n\ntype Target struct{ Val int }\n" + flow.src
+	var libPkg *types.Package
+	var inherited *pkgCache
+	if flow.lib != "" {
+		lib := &listedPackage{Name: "lib", ImportPath: c08LibPath, ToObfuscate: true, Imports: []string{"reflect"}}
+		copy(lib.GarbleActionID[:], "fedcba9876543210fedcba9876543210")
+		sharedCache.ListedPackages.set(lib.ImportPath, lib)
+		cur.Imports = append(cur.Imports, c08LibPath)
+		lfile := parse("lib.go", "package lib\n\nimport \"reflect\"\n"+flow.lib)
+		if lfile == nil {
+			return
+		}
+		lp, linfo, err := typecheck(c08LibPath, []*ast.File{lfile}, c08Importer(reflectPkg), true)
+		if err != nil {
+			symx.Fail(err.Error())
+			return
+		}
+		libPkg = lp
+		c := c08Analyse(lib, lp, lfile, linfo, nil)
+		inherited = &c
+	}
+	src := "package cur\n\n"
+	if strings.Contains(flow.src, "reflect.") {
+		src += "import \"reflect\"\n"
+	}
+	if flow.lib != "" {
+		src += "import \"" + c08LibPath + "\"\n"
+	}
+	src += "\ntype Target struct{ Val int }\n" + flow.src
 	file := parse("a.go", src)
 	if file == nil {
 		return
 	}
-	pkg, info, err := typecheck(cur.ImportPath, []*ast.File{file}, c08Importer(reflectPkg), true)
+	pkg, info, err := typecheck(cur.ImportPath, []*ast.File{file}, c08Importer(reflectPkg, libPkg), true)
 	if err != nil {
 		symx.Fail(err.Error())
 		return
 	}
-	ssaPkg := ssaBuildPkg(pkg, []*ast.File{file}, info)
 	symx.Reach("built")
-
-	// like computePkgCache
-	computed := pkgCache{
-		ReflectAPIs: map[string]map[int]bool{
-			"reflect.TypeOf":  {0: true},
-			"reflect.ValueOf": {0: true},
-		},
-		ReflectObjectNames: map[string]string{},
-	}
-	inspector := reflectInspector{
-		lpkg:            cur,
-		pkg:             pkg,
-		checkedAPIs:     make(map[string]bool),
-		propagatedInstr: map[ssa.Instruction]bool{},
-		result:          computed,
-	}
-	symx.MapOrder(true)
-	// the package's members (a handful) in every explored order; the small API tables in insertion order
-	symx.MapOrderOpts(5, tier(0, 6), true)
-	inspector.recordReflection(ssaPkg)
-	symx.MapOrder(false)
+	result := c08Analyse(cur, pkg, file, info, inherited)
 	symx.Reach("analysed")
 
 	target := pkg.Scope().Lookup("Target").(*types.TypeName)
 	st := target.Type().Underlying().(*types.Struct)
-	names := inspector.result.ReflectObjectNames
+	names := result.ReflectObjectNames
 	hT := hashWithPackage(cur, "Target")
 	hF := hashWithStruct(st, st.Field(0))
 	if names[hT] != "Target" {
